@@ -1,7 +1,7 @@
 (** [run_line]: one case line in, one observation line out (model side of the
     correspondence check). *)
 From Coq Require Import String.
-From JP Require Import Base F64 Value Sig Slice JsonRead JsonPrint Functions Interp Lexer Parser History Serde Cli Wire Spec.SliceSpec Spec.Semantics.
+From JP Require Import Base F64 Value Sig Slice JsonRead JsonPrint Functions Interp Lexer Parser History Serde Cli Wire Spec.SliceSpec Spec.Semantics Spec.SigSpec.
 
 Definition K_slice := Eval compute in s2l "slice".
 Definition K_index := Eval compute in s2l "index".
@@ -105,6 +105,27 @@ Definition run_fn (ts : list tok) : list tok :=
               pr_res [] pr_value
                 (let* (v, _) := call_impl (interp fuel_default default_runtime) fi args off in Ok v)
           | None => [K_ERR; K_nofunction]
+          end
+      | _, _, _ => bad
+      end
+  | _ => bad
+  end.
+
+Definition K_specfn := Eval compute in s2l "specfn".
+Definition K_SPEC := Eval compute in s2l "SPEC".
+
+(** specfn <off> <name> <args> : the specification's verdict on the call (oracle) *)
+Definition run_specfn (ts : list tok) : list tok :=
+  match ts with
+  | o :: n :: r =>
+      match parse_nat o, parse_str n, rd_all_values (S (length r)) r with
+      | Some off, Some name, Some args =>
+          match spec_verdict name args with
+          | SVUnknown => [K_SPEC; K_unknown_function]
+          | SVNotEnough e a => [K_SPEC; K_not_enough; print_nat e; print_nat a]
+          | SVTooMany e a => [K_SPEC; K_too_many; print_nat e; print_nat a]
+          | SVBadType k => [K_SPEC; K_invalid_type; print_nat k]
+          | SVAccept => [K_SPEC; K_ok]
           end
       | _, _, _ => bad
       end
@@ -511,6 +532,7 @@ Definition run_tokens (ts : list tok) : list tok :=
       else if str_eqb k K_cmp then run_cmp r
       else if str_eqb k K_truthy then run_truthy r
       else if str_eqb k K_fn then run_fn r
+      else if str_eqb k K_specfn then run_specfn r
       else if str_eqb k K_parse_k then run_parse r
       else if str_eqb k K_speceval then run_speceval r
       else if str_eqb k K_refparse then run_refparse r
